@@ -135,7 +135,9 @@ class C12(Case):
         return cond_expr(x, n["i"])
 
     def emit_body(self, n, v, x):
-        if n.get("bin"):
+        if self.spec.get("join"):
+            Add(v, TYPES[n["i"]](it=x, other=self._pvar))
+        elif n.get("bin"):
             Add(v, TYPES[n["i"]](it=x, other=self._yvars[n["i"]]))
         else:
             Add(v, TYPES[n["i"]](it=x))
@@ -154,13 +156,21 @@ class C12(Case):
         items = S.make_objects(mk, Item, "x", n, extra=("t", "d", "s"))
         self._ys = S.make_objects(mk, S.Other, "y", 2) if sp.get("binary") else []
         self._yvars = {}
+        if sp.get("join"):
+            # the rule matches PAIRS (x, p): parts p that belong to x (symbolic reference); branch conditions mention x only
+            self._ys = [S.Other(name="p%d" % j) for j in range(2)]
+            for j, po in enumerate(self._ys):
+                po.ref = mk.ref("p%d.ref" % j, items)
         data = dict(items=items, res=None, ys=self._ys)
         if sp.get("cache") == "off":
             disable_caching()
         try:
             with symbolic_mode():
                 x = let(Item, domain=items)
-                if sp.get("spelling") == "infer":
+                if sp.get("join"):
+                    self._pvar = let(S.Other, domain=self._ys)
+                    q = an(entity(v := let(Concl), cond_expr(x, tree[0]["i"]), self._pvar.ref == x))
+                elif sp.get("spelling") == "infer":
                     q = infer(v := let(Concl), cond_expr(x, tree[0]["i"]))
                 else:
                     q = an(entity(v := let(Concl), cond_expr(x, tree[0]["i"])))
@@ -185,7 +195,7 @@ class C12(Case):
             ti = TYPES.index(type(r)) if type(r) in TYPES else -1
             oi = [j for j, it in enumerate(items) if it is getattr(r, "it", None)]
             yi = [j for j, y in enumerate(self._ys) if y is getattr(r, "other", None)]
-            out.append([ti, oi[0] if oi else -1] + ([yi[0] if yi else -1] if self.spec.get("binary") else []))
+            out.append([ti, oi[0] if oi else -1] + ([yi[0] if yi else -1] if (self.spec.get("binary") or self.spec.get("join")) else []))
         return out
 
     # reference -----------------------------------------------------------------------------------
@@ -237,7 +247,17 @@ class C12(Case):
                         collect(n_["exc"])
             collect(self.spec["tree"])
             bins = sorted(i for i, b in binmap.items() if b)
-            if not bins:
+            if self.spec.get("join"):
+                for oi, obj in enumerate(items):
+                    ref = self.reference(alg, obj)
+                    for pj, po in enumerate(self._ys):
+                        owner = alg.same(po.ref, obj, items)
+                        for ti, term in ref.items():
+                            cnt = sum(1 for r in rows if r[0] == ti and r[1] == oi and r[2] == pj)
+                            obs.append((tag + "pair_x%d_p%d_conclusion_T%d_count_%d" % (oi, pj, ti, cnt),
+                                        alg.and_(alg.const(cnt <= 1), alg.iff(alg.const(cnt == 1), alg.and_(owner, term)))))
+                obs.append((tag + "no_conclusion_without_its_part", alg.const(all(r[2] >= 0 for r in rows))))
+            elif not bins:
                 for oi, obj in enumerate(items):
                     ref = self.reference(alg, obj)
                     for ti, term in ref.items():
@@ -321,6 +341,14 @@ def shapes(tier, seed):
                     out.append(dict(tree=mark(t, [i]), binary=True, twice=True))
             if len(ls) >= 2 and B <= 3:
                 out.append(dict(tree=mark(t, ls[:2]), binary=True))
+    # rules matching PAIRS (x, p): only exception chains under the base (no base-level alternative), conditions on x
+    for B in range(1, (4 if tier == "quick" else 5) + 1):
+        for t in all_trees(B):
+            if len(t) == 1:
+                out.append(dict(tree=t, join=True))
+                if B <= 3:
+                    out.append(dict(tree=t, join=True, twice=True))
+                    out.append(dict(tree=t, join=True, cache="off"))
     if tier == "thorough":
         seven = list(all_trees(7))
         for t in rnd.sample(seven, min(200, len(seven))):
